@@ -9,6 +9,26 @@ the host's handle table and the heap of representations, as a transition system 
 host history (lower/lift of own and borrow handles, the three resource built-ins, destructor runs,
 export call scopes).  `trap` = the host or the heap rejects what the glue does.
 
+**What is what** (read this before the theorem list):
+
+* *Definitional.*  `Sys.step` answers `disabled` when the glue, as modelled, cannot produce an event: there
+  is no wrapper value holding the index (so no `take_handle`/`Drop`/`handle()` can run on it), or — for
+  `callEnd` — the glue's `handle_decls` temporaries are still alive.  That the generated function drops those
+  temporaries before it returns is an **assumption about the control flow of the glue** built into the
+  model (Rust scoping), not a theorem.  Consequently `own_transferred_once`, `no_use_after_take`,
+  `own_received_dropped_once` (first part) and `borrow_never_dropped` are *one-step unfoldings of the model*:
+  they state what the model says the glue does, they do not prove the real glue does it.
+* *Invariant content.*  The theorems with real content are `step_inv` / `reach_inv` (an 11-clause invariant
+  is preserved by every event of every history) and `never_traps` / `run_never_traps` (under it the host's
+  table and the heap never reject what the glue does), from which `no_handle_leak`,
+  `exported_rep_reachable_through_every_handle` and `exported_dtor_once` follow.
+* *Validated, not proved.*  That the real generated glue behaves like the model is checked by trace
+  acceptance in `./check C07`: every recorded native history must be accepted by the host rules
+  (`HostSpec`) and be a trace of `Sys` (no `disabled`, no `trap`).  In those traces only `drop`, `new`,
+  `rep`, `dtor` and `udrop` are emitted by the guest (through the H3 symbols, the `[dtor]` export and the
+  stub's `Drop`); `own+`, `bor+`, `own-`, `lend`, `use`, `call±` are written by the check's host from the
+  values it sends and lifts.
+
 All statements quantify over **every** reachable state, i.e. every finite history of
 create / borrow / transfer / drop events in any order and interleaving, any number of resources and
 handles, any index allocation policy of the host.  Tie to the real code: `./check C07` — the generated
@@ -56,7 +76,8 @@ theorem silent_of_no_cell (s : Sys) (h : Nat) (hc : s.cells.get h = none) : Sile
   refine ⟨?_, ?_, ?_, ?_⟩ <;> simp [Sys.step, hc]
 
 /-- **Owned handles passed to imports or returned from exports are transferred exactly once, and never
-used afterwards** (`own_transferred_once`, `no_use_after_take`): after the transfer the wrapper value
+used afterwards** (`own_transferred_once`, `no_use_after_take`) — *a one-step unfolding of the model*
+(see the header: misuse is `disabled` by construction; the content is that real traces are model traces): after the transfer the wrapper value
 is gone, the index is out of the table, and the glue cannot produce another transfer, drop, borrow or
 `resource.rep` of that index. -/
 theorem own_transferred_once {s s' : Sys} {h : Nat} (hs : s.step (.ownMinus h) = .ok s') :
@@ -106,7 +127,9 @@ theorem no_handle_leak {s : Sys} (hr : Reach s) :
       rw [Map.isEmpty_get s.cells hc k] at this
       simp at this
 
-/-- **Borrowed handles are never dropped by the guest** (`borrow_never_dropped`), in the reading
+/-- **Borrowed handles are never dropped by the guest** (`borrow_never_dropped`) — *unfoldings of the
+model*; (c) relies on the modelling assumption that `callEnd` is only enabled once the glue's temporaries
+are gone (the safety part — the host then never rejects the return — is `never_traps`).  Reading
 fixed in DESIGN §7 C07: (a) lowering a `borrow` argument leaves every wrapper value, the table and
 the heap untouched; (b) a borrow of an exported resource is a representation pointer: no built-in,
 no state change; (c) when an export returns, no scoped borrow index of that call is left (and, by
